@@ -125,7 +125,7 @@ def _pick(x, lo, hi, b):
 def flow_decode(data, afi, b=bool, vpn=False):
     """data: buffer starting with the NLRI length.  Returns
          ('rule', rd|None, components, consumed)            well-formed
-         (verdict, consumed|None)                            verdict in VERDICTS
+         (verdict, consumed|None[, components read before the fault])   verdict in VERDICTS
        components: ('prefix4', type, length, prefix) | ('prefix6', type, length, offset, pattern) |
                    ('ops', type, [(and_bit, low4, width, value, first), ...])
        low4: the low four operator bits as sent (numeric: 0 lt gt eq, bitmask: 0 0 not m)."""
@@ -158,7 +158,7 @@ def flow_decode(data, afi, b=bool, vpn=False):
         t = _pick(data[i], 1, MAX_TYPE[afi], b)
         i += 1
         if t is None:
-            return ('undefined-component', end)
+            return ('undefined-component', end, comps)
         if t <= prev:
             ordered = False
         prev = t
@@ -166,43 +166,43 @@ def flow_decode(data, afi, b=bool, vpn=False):
         if k == 'prefix':
             if afi == IPV4:
                 if i >= end:
-                    return ('truncated', end)
+                    return ('truncated', end, comps)
                 m = data[i]
                 if b(m > 32):
-                    return ('bad-prefix-length', end)
+                    return ('bad-prefix-length', end, comps)
                 nb = _pick_bytes(m, 4, b)
                 if i + 1 + nb > end:
-                    return ('truncated', end)
+                    return ('truncated', end, comps)
                 comps.append(('prefix4', t, m, data[i + 1:i + 1 + nb]))
                 i += 1 + nb
             else:
                 if i + 1 >= end:
-                    return ('truncated', end)
+                    return ('truncated', end, comps)
                 m, off = data[i], data[i + 1]
                 if b(m > 128):
-                    return ('bad-prefix-length', end)
+                    return ('bad-prefix-length', end, comps)
                 if b(m == 0):
                     if b(off != 0):
-                        return ('bad-prefix-length', end)
+                        return ('bad-prefix-length', end, comps)
                 elif b(off >= m):
-                    return ('bad-prefix-length', end)
+                    return ('bad-prefix-length', end, comps)
                 nb = _pick_bytes(m - off, 16, b)
                 if i + 2 + nb > end:
-                    return ('truncated', end)
+                    return ('truncated', end, comps)
                 comps.append(('prefix6', t, m, off, data[i + 2:i + 2 + nb]))
                 i += 2 + nb
             continue
         ops = []
         while True:
             if i >= end:
-                return ('missing-eol', end)
+                return ('missing-eol', end, comps)
             op = data[i]
             e = op // 128
             a = (op // 64) % 2
             w = 1 << _pick((op // 16) % 4, 0, 3, b)
             low = op % 16
             if i + 1 + w > end:
-                return ('truncated', end)
+                return ('truncated', end, comps)
             value = 0
             for j in range(w):
                 value = value * 256 + data[i + 1 + j]
@@ -212,7 +212,7 @@ def flow_decode(data, afi, b=bool, vpn=False):
                 break
         comps.append(('ops', t, ops))
     if not ordered:
-        return ('out-of-order', end)
+        return ('out-of-order', end, comps)
     return ('rule', rd, comps, end)
 
 
